@@ -217,9 +217,10 @@ class GridMachineBase(Machine):
         w['PERSIST'] *= 0.3
         w['MINC'] *= 0.4
         if cls.PHYSICS:
-            for op in ('ADD_BLOCK', 'DEL_BLOCK', 'ADD_CON', 'DEL_CON', 'ADD_ROCK', 'DEL_ROCK',
+            for op in ('ADD_BLOCK', 'DEL_BLOCK', 'DEL_CON', 'ADD_ROCK', 'DEL_ROCK',
                        'RENAME_ROCK', 'CLEAN_ROCK', 'ADD_GRID'):
                 w[op] = 0.0
+            w['ADD_CON'] *= 0.4        # (starting grids with a second, reversed connection)
             w['REORDER'] = max(w['REORDER'], 0.5)
             w['RENAME'] = max(w['RENAME'], 0.4)
             w['PERSIST'] = max(w['PERSIST'], 0.15)
@@ -343,7 +344,9 @@ class GridMachineBase(Machine):
         rng = random.Random(H('init', sub))
         if self.universe:
             g = tg.t2grid()
-            rks = [tg.rocktype('dfalt'), tg.rocktype('rock1')]
+            # (a rock type may be named by a number that is not its position in the list)
+            rks = [tg.rocktype('dfalt'), tg.rocktype(rng.choice(('rock1', 'rock1', '    1',
+                                                                 '    3')))]
             for r in rks:
                 g.add_rocktype(r)
             names = [n for n in UNIVERSE if rng.random() < 0.8]
@@ -384,7 +387,7 @@ class GridMachineBase(Machine):
                 geo.atmosphere_type = (geo.atmosphere_type + 1 + sub2 % 2) % 3
                 self.ctx.probes['geo_atmosphere_type_changed'] += 1
             g = self.call(lambda: tg.t2grid().fromgeo(geo), 'fromgeo')
-            extra = tg.rocktype('rock1')
+            extra = tg.rocktype(rng.choice(('rock1', 'rock1', '    1', '    3')))
             g.add_rocktype(extra)
             for b in g.blocklist:
                 if rng.random() < 0.3:
